@@ -81,6 +81,7 @@ def entries(tier):
         out.append(("tensor_ring", {"svd": svd}))
         out.append(("tensor_train_matrix", {"svd": svd}))
     out.append(("Tucker-class", {"init": "svd"}))
+    out.append(("Parafac2-class", {"init": "random", "normalize_factors": True}))  # class defaults otherwise (return_errors=False, linesearch=False)
     out.append(("tucker-fixed-factors", {}))
     out.append(("TensorTrain-class", {}))
     return out
@@ -88,7 +89,7 @@ def entries(tier):
 
 def shapes_for(entry, tier):
     q = tier == "quick"
-    if entry in ("parafac2", "cmtf"):
+    if entry in ("parafac2", "cmtf", "Parafac2-class"):
         return [(3, 4, 2), (2, 3, 3)] + ([] if q else [(4, 2, 3), (1, 3, 2)])
     if entry == "tensor_train_matrix":
         return [(2, 3, 2, 3), (2, 2, 3, 3)] + ([] if q else [(3, 2), (2, 2, 2, 2, 2, 2)])
@@ -100,7 +101,7 @@ def shapes_for(entry, tier):
 
 def rank_specs(entry, shape, tier):
     n = len(shape)
-    if entry in ("parafac", "non_negative_parafac", "non_negative_parafac_hals", "randomised_parafac", "CP-class", "cmtf", "parafac2"):
+    if entry in ("parafac", "non_negative_parafac", "non_negative_parafac_hals", "randomised_parafac", "CP-class", "cmtf", "parafac2", "Parafac2-class"):
         specs = [1, 2, 3]
         if entry in ("parafac", "CP-class", "non_negative_parafac"):
             specs += ["same", 0.5]
@@ -233,6 +234,9 @@ class C08(Check):
             elif entry == "parafac2":
                 t = itm.TINY if tol is None else tol
                 res, errs = D.parafac2(X, rank, n_iter_max=nit, tol=t, random_state=rs, return_errors=True, **opts)
+            elif entry == "Parafac2-class":
+                t = itm.TINY if tol is None else tol
+                res = D.Parafac2(rank, n_iter_max=nit, tol=t, random_state=rs, **opts).fit_transform(X)
             elif entry == "cmtf":
                 from tensorly.decomposition._cmtf_als import coupled_matrix_tensor_3d_factorization as cmtf
 
@@ -261,6 +265,12 @@ class C08(Check):
                 ctx.outcome(f"{entry}:rejected-invalid-rank")
             elif isinstance(rank, (float, str)) and not isinstance(e, np.linalg.LinAlgError):
                 ctx.violation(f"{tag}/raises-on-fractional-rank-spec/{cls}", f"{case}: {cls}: {e}")
+            elif not (isinstance(e, np.linalg.LinAlgError)                                                     # singular block problem
+                      or (isinstance(e, AssertionError) and "PARAFAC2 rank" in str(e))                          # documented: rank <= number of columns
+                      or (isinstance(e, ValueError) and entry.startswith("tensor_ring") and "larger than" in str(e))  # documented TR-SVD restriction
+                      or (isinstance(e, UnboundLocalError) and entry == "cmtf" and nit == 0)):                  # CMTF cannot run zero sweeps
+                # anything else on a valid request means no decomposition was returned at all
+                ctx.violation(f"{tag}/raises-on-valid-request/{cls}", f"{case}: {cls}: {e}")
             else:
                 ctx.count(f"guarded_out:raises:{entry}:{cls}:{str(e)[:40]}")
                 ctx.outcome(f"{entry}:raised")
@@ -324,7 +334,7 @@ class C08(Check):
                                  f"{nm} output with normalize_factors=True differs from the un-normalised run by {np.abs(da - db).max():.3e}")
                 except np.linalg.LinAlgError:
                     ctx.count("guarded_out:cmtf-unnormalised-twin-singular")
-        elif entry == "parafac2":
+        elif entry in ("parafac2", "Parafac2-class"):
             w, fs, projs = res
             R = rank
             exp = [(shape[0], R), (R, R), (shape[2], R)]
